@@ -151,6 +151,9 @@ func runC19(c *Ctx) {
 		// table of atom forms (three-valued; anything else is unknown). Constant folding at a single
 		// point, not an execution: the forms are d == -1, ^T(0) < 0, n != 0, n == -n, n < 0 and their
 		// negations, combined with ! && || and through unexported predicate helpers.
+		// zeroWorld: fold at the pair (0, -1) instead of (min, -1): 0 is the only other value that is
+		// its own negation, and 0 / -1 is representable, so the guard must stay there
+		zeroWorld := false
 		var atCritical func(e ast.Expr, body *ast.BlockStmt, d types.Object, depth int, signed bool) (val, known bool)
 		atCritical = func(e ast.Expr, body *ast.BlockStmt, d types.Object, depth int, signed bool) (bool, bool) {
 			e = ast.Unparen(e)
@@ -201,6 +204,9 @@ func runC19(c *Ctx) {
 					case (objOfIdent(info, x.X) == d && isMinusOneIn(body, x.Y)) || (objOfIdent(info, x.Y) == d && isMinusOneIn(body, x.X)):
 						return eq, true // d == -1
 					case (isOther(x.X) && isZero(x.Y)) || (isOther(x.Y) && isZero(x.X)):
+						if zeroWorld {
+							return eq, true // 0 == 0
+						}
 						return !eq, true // min != 0
 					case (isOther(x.X) && isNegOf(x.Y, x.X)) || (isOther(x.Y) && isNegOf(x.X, x.Y)):
 						return eq, true // min == -min
@@ -211,6 +217,9 @@ func runC19(c *Ctx) {
 					case isMinusOneIn(body, x.X) && isZero(x.Y):
 						return lt == signed, true // ^T(0) < 0 exactly when the type is signed
 					case isOther(x.X) && isZero(x.Y):
+						if zeroWorld {
+							return !lt, true // 0 < 0 is false
+						}
 						return lt == signed, true // min < 0; nothing unsigned is below zero
 					}
 				case token.GTR, token.LEQ:
@@ -219,6 +228,9 @@ func runC19(c *Ctx) {
 					case isZero(x.X) && isMinusOneIn(body, x.Y):
 						return gt == signed, true
 					case isZero(x.X) && isOther(x.Y):
+						if zeroWorld {
+							return !gt, true // 0 > 0 is false
+						}
 						return gt == signed, true
 					}
 				}
@@ -312,6 +324,13 @@ func runC19(c *Ctx) {
 							if typeSetHasUnsigned(t) && !(uknown && uval != (1-si == 0)) {
 								spurious = append(spurious, fmt.Sprintf("%s: over the unsigned types of the type set the branch on %s is not known to stay (no conjunct that is false for unsigned types, such as ^T(0) < 0): a spurious overflow error for operands like (2^(n-1), max)", p.posStr(cnd.Pos()), types.ExprString(cnd)))
 							}
+							// ... and at (0, -1) in the signed types: zero is its own negation too, but 0 / -1 is 0
+							zeroWorld = true
+							zval, zknown := atCritical(cnd, fd.Body, divisor, 3, true)
+							zeroWorld = false
+							if !(zknown && zval != (1-si == 0)) {
+								spurious = append(spurious, fmt.Sprintf("%s: for the dividend 0 the branch on %s is not known to stay (x == -x also holds for 0; the guard needs x != 0 or x < 0): a spurious overflow error for 0 / -1", p.posStr(cnd.Pos()), types.ExprString(cnd)))
+							}
 							if known && val == (1-si == 0) {
 								guards = append(guards, Edge{b, si})
 							} else {
@@ -336,8 +355,8 @@ func runC19(c *Ctx) {
 				}
 				if len(spurious) > 0 {
 					r.Fail("signed-div/guard-signed-only", key, p.posStr(d.Pos()), spurious[0], spurious...)
-				} else if typeSetHasUnsigned(t) && !divideBack {
-					r.Pass("signed-div/guard-signed-only", key, p.posStr(d.Pos()), "the (min, -1) guard contains a conjunct that is false for every unsigned type: no spurious error there")
+				} else if !divideBack {
+					r.Pass("signed-div/guard-signed-only", key, p.posStr(d.Pos()), "the (min, -1) guard is false for every unsigned type and for the dividend 0: no spurious error there")
 				}
 				if w, only := f.OnlyThroughEdges(pt, guards); only {
 					r.Pass("signed-div/guarded", key, p.posStr(d.Pos()), "dominated by a branch that singles out divisor == -1 and leaves through its other edge")
@@ -530,7 +549,9 @@ func checkRoundTripValidated(r *Reporter, p *Prog, pkg string, info *types.Info)
 			}
 		}
 	}
-	if n < 3 {
-		r.Fail("wrap/round-trip-validated", pkg, "-", fmt.Sprintf("expected the raw products/shifts of SafeMul, SafeMulInt64 and SafeLeftShift, found %d (vacuous)", n))
+	// (floor: the two generic functions cannot avoid a raw `*` / `<<` on T; the 64-bit variants are free
+	// to use another algorithm - their arithmetic is not decided here either way)
+	if n < 2 {
+		r.Fail("wrap/round-trip-validated", pkg, "-", fmt.Sprintf("expected the raw products/shifts of the generic SafeMul and SafeLeftShift, found %d (vacuous)", n))
 	}
 }
